@@ -26,6 +26,12 @@ theorem propagate_fuel_suffices (ni nj : Nat) (g : Array VV) (once : Bool) (hs :
     (propagate_fuel ni nj _ _ _ _ (by decide) (by decide) (by decide) (by decide) _ g once hs (hf _)).1,
     (propagate_fuel ni nj _ _ _ _ (by decide) (by decide) (by decide) (by decide) _ g once hs (hf _)).1⟩
 
+/-- **fill_fuel_suffices**: every loop of the fill pass — the `propagate_values` sweeps and, with `detect_cavities`, the
+inside/outside alternation (each completed round turns at least two cells into a final value) — stays within the fuel the
+model gives it (number of cells + 1), in every `FillMode`, for every grid of the right size. -/
+theorem fill_fuel_suffices (cfg : Cfg) (ni nj : Nat) (g : Array VV) (hs : g.size = ni * nj) :
+    (fill cfg ni nj g).2 = true := fill_fuel_all cfg ni nj g hs
+
 /-- a grid on which the hypotheses of `propagate_fuel_suffices` / `fill_spec` hold: a 3×3 grid with a surface ring -/
 example : (#[VV.surf, .surf, .surf, .surf, .undef, .surf, .surf, .surf, .surf] : Array VV).size = 3 * 3 := rfl
 
